@@ -823,6 +823,19 @@ func (w *World) fineAtMatches(name string) bool {
 	if at == name {
 		return true
 	}
+	if strings.HasPrefix(at, "hb-after-takeover:") {
+		// the answer of a heartbeat refresh of <inst> whose record is already somebody else's
+		inst := strings.TrimPrefix(at, "hb-after-takeover:")
+		if strings.HasPrefix(name, "ok:"+inst+".hb.Update#") {
+			in := w.insts[inst]
+			if in == nil {
+				return false
+			}
+			m := w.store.Live(in.group(), w.now())
+			return m != nil && m.By != inst
+		}
+		return false
+	}
 	if strings.HasPrefix(at, "create-wins:") {
 		inst := strings.TrimPrefix(at, "create-wins:")
 		if strings.HasPrefix(name, "ok:"+inst+".") && strings.Contains(name, ".Create#") {
